@@ -576,7 +576,7 @@ SUBS = [
                "bool/array, squeeze, signal type, intensity); rules read / dask_read (default and explicit chunks) / offset_at(time_at) absolute "
                "and relative / out-of-range requests / adjacent reads vs spanning read / 2-4 threads under a drawn interleaving of their "
                "seek/read events; every result checked against the file content and against earlier reads of the same (offset, n); "
-               "non-trivial = a read crossing a frame or file boundary, a lower-sideband file, or a threaded step", quick=160, thorough=3000,
+               "non-trivial = a read crossing a frame or file boundary, a lower-sideband file, or a threaded step", quick=128, thorough=3000,
                steps_quick=10, steps_thorough=25, pieces_quick=8, budget_quick=70),
     Sub("soak", soak_case(), run_soak, "12 free-running threads x 3 reads each on one reader; all results vs file content; all non-trivial", quick=16,
         thorough=300, pieces_quick=4),
